@@ -88,4 +88,67 @@ pub proof fn lemma_authority_components(a: Seq<u8>)
         axiom_comp_port(a, hs, he, bracket);
     }
 }
+
+// ---- G3b: the converse, and the authority handle (C04 / C11, character level, URI family) ----
+/// certificate comp_uri_authority_compose::compose_authority (k: position of the '@' when hs == k + 1; he: end of the host)
+#[verifier::external_body]
+pub proof fn axiom_compose_authority(s: Seq<u8>, k: int, hs: int, he: int)
+    requires
+        hs == 0 || (0 <= k && hs == k + 1 && hs <= s.len() && s[k] == 64 && lang_userinfo(s.subrange(0, k))),
+        0 <= hs <= he <= s.len(),
+        lang_host(s.subrange(hs, he)),
+        he == s.len() || (s[he] == 58 && lang_port(s.subrange(he + 1, s.len() as int))),
+    ensures lang_authority(s),
+{}
+/// PROVED: [user info '@'] host [':' port] assembled from valid parts is a valid authority
+pub proof fn lemma_authority_compose(ui: Option<Seq<u8>>, h: Seq<u8>, p: Option<Seq<u8>>)
+    requires ui is Some ==> lang_userinfo(ui.unwrap()), lang_host(h), p is Some ==> lang_port(p.unwrap()),
+    ensures lang_authority(auth_compose(ui, h, p)),
+{
+    let pre = opt_prefix(ui, 64);
+    let suf = opt_suffix(58, p);
+    let a = auth_compose(ui, h, p);
+    let ul = pre.len() as int;
+    let hl = h.len() as int;
+    assert(a.len() == ul + hl + suf.len());
+    assert(a.subrange(ul, ul + hl) =~= h);
+    match ui { Some(u) => { assert(a.subrange(0, ul - 1) =~= u); assert(a[ul - 1] == 64); }, None => { } }
+    match p { Some(x) => { assert(a[ul + hl] == 58); assert(a.subrange(ul + hl + 1, a.len() as int) =~= x); }, None => { } }
+    axiom_compose_authority(a, ul - 1, ul, ul + hl);
+}
+/// C04 / C11 for the authority handle of a URI reference: after set_userinfo / set_host / set_port - whose proved
+/// postcondition is `new authority text == auth_compose(parts with one replaced)`, prefix and suffix unchanged - the
+/// whole text is again in the URI-reference language. `na` is the new authority text.
+pub proof fn lemma_auth_handle_valid(o: Seq<u8>, nu: Option<Seq<u8>>, nh: Seq<u8>, np: Option<Seq<u8>>)
+    requires lang_uriref(o), x_has_auth(o),
+        nu is Some ==> lang_userinfo(nu.unwrap()), lang_host(nh), np is Some ==> lang_port(np.unwrap()),
+        authority_shape(auth_compose(nu, nh, np)),
+    ensures lang_uriref(splice(o, x_hier(o) + 2, x_auth_end(o), auth_compose(nu, nh, np))),
+{
+    let na = auth_compose(nu, nh, np);
+    lemma_authority_compose(nu, nh, np);
+    axiom_uriref_facts(o);
+    lemma_set_authority(o, Some(na));
+    assert(set_auth_text(o, Some(na)) == splice(o, x_hier(o) + 2, x_auth_end(o), na));
+    assert(set_auth_path(r_auth(o), true, r_path(o)) == r_path(o));
+    lemma_set_authority_valid(o, splice(o, x_hier(o) + 2, x_auth_end(o), na), Some(na));
+}
+/// the three edits, spelled out: unchanged parts come from the old authority (valid by lemma_authority_components)
+pub proof fn lemma_auth_edits_valid(o: Seq<u8>, a: Seq<u8>, v: Seq<u8>)
+    requires lang_uriref(o), x_has_auth(o), r_auth(o) == Some(a), auth_shape(a, 0),
+    ensures
+        lang_userinfo(v) && authority_shape(auth_compose(Some(v), au_host(a), au_port(a))) ==> lang_uriref(splice(o, x_hier(o) + 2, x_auth_end(o), auth_compose(Some(v), au_host(a), au_port(a)))),
+        authority_shape(auth_compose(None, au_host(a), au_port(a))) ==> lang_uriref(splice(o, x_hier(o) + 2, x_auth_end(o), auth_compose(None, au_host(a), au_port(a)))),
+        lang_host(v) && authority_shape(auth_compose(au_ui(a), v, au_port(a))) ==> lang_uriref(splice(o, x_hier(o) + 2, x_auth_end(o), auth_compose(au_ui(a), v, au_port(a)))),
+        lang_port(v) && authority_shape(auth_compose(au_ui(a), au_host(a), Some(v))) ==> lang_uriref(splice(o, x_hier(o) + 2, x_auth_end(o), auth_compose(au_ui(a), au_host(a), Some(v)))),
+        authority_shape(auth_compose(au_ui(a), au_host(a), None)) ==> lang_uriref(splice(o, x_hier(o) + 2, x_auth_end(o), auth_compose(au_ui(a), au_host(a), None))),
+{
+    lemma_uriref_components(o);
+    lemma_authority_components(a);
+    if lang_userinfo(v) && authority_shape(auth_compose(Some(v), au_host(a), au_port(a))) { lemma_auth_handle_valid(o, Some(v), au_host(a), au_port(a)); }
+    if authority_shape(auth_compose(None, au_host(a), au_port(a))) { lemma_auth_handle_valid(o, None, au_host(a), au_port(a)); }
+    if lang_host(v) && authority_shape(auth_compose(au_ui(a), v, au_port(a))) { lemma_auth_handle_valid(o, au_ui(a), v, au_port(a)); }
+    if lang_port(v) && authority_shape(auth_compose(au_ui(a), au_host(a), Some(v))) { lemma_auth_handle_valid(o, au_ui(a), au_host(a), Some(v)); }
+    if authority_shape(auth_compose(au_ui(a), au_host(a), None)) { lemma_auth_handle_valid(o, au_ui(a), au_host(a), None); }
+}
 } // verus!
